@@ -444,6 +444,82 @@ func run(t *testing.T, kind string) {
 	})
 }
 
+// runStale: histories built around one handle that outlives its path: create p (1-2 elements deep), open it, then 1..4
+// disturbances of p and of its directory (remove, rename away, rename something onto it, re-create either as the other
+// kind), then the handle is used; the tree invariants are evaluated after every step.
+func runStale(t *testing.T, kind string) {
+	vf.Check(t, "stale-"+kind, func(rt *rapid.T, rec *vf.Rec) {
+		m := &machine{s: newSubject(kind)}
+		dir := rapid.SampledFrom([]string{".", "a", "b"}).Draw(rt, "dir")
+		p := rapid.SampledFrom(gen.Names).Draw(rt, "name")
+		var hist []ops.Op
+		if dir != "." {
+			hist = append(hist, ops.Op{K: "mkdirall", P: dir, Perm: 0o755})
+			p = dir + "/" + p
+		}
+		hist = append(hist, ops.Op{K: "hopen", P: p, N: 0, Flag: rapid.SampledFrom([]int{os.O_RDWR | os.O_CREATE, os.O_WRONLY | os.O_CREATE | os.O_APPEND}).Draw(rt, "flag")})
+		// scripted disturbances (constructed, not filtered), optionally followed by random ones
+		other := rapid.SampledFrom([]string{"c", "c/c"}).Draw(rt, "other")
+		scripts := [][]ops.Op{
+			{{K: "remove", P: p}},
+			{{K: "rename", P: p, P2: other}},
+			{{K: "remove", P: p}, {K: "mkdir", P: p, Perm: 0o755}, {K: "mkdir", P: p + "/b", Perm: 0o755}},
+			{{K: "remove", P: p}, {K: "writefile", P: p, Data: []byte("new"), Perm: 0o600}},
+			{{K: "mkdir", P: "c", Perm: 0o755}, {K: "mkdir", P: "c/c", Perm: 0o755}, {K: "remove", P: p}, {K: "rename", P: "c", P2: p}},
+		}
+		if dir != "." {
+			scripts = append(scripts,
+				[]ops.Op{{K: "remove", P: p}, {K: "remove", P: dir}, {K: "writefile", P: dir, Data: []byte("f"), Perm: 0o644}},
+				[]ops.Op{{K: "removeall", P: dir}, {K: "writefile", P: dir, Data: []byte("f"), Perm: 0o644}},
+				[]ops.Op{{K: "removeall", P: dir}},
+				[]ops.Op{{K: "rename", P: dir, P2: "c"}},
+				[]ops.Op{{K: "rename", P: dir, P2: "c"}, {K: "writefile", P: dir, Data: []byte("f"), Perm: 0o644}},
+				[]ops.Op{{K: "rename", P: dir, P2: "c"}, {K: "mkdir", P: dir, Perm: 0o700}},
+			)
+		}
+		hist = append(hist, scripts[rapid.IntRange(0, len(scripts)-1).Draw(rt, "script")]...)
+		nd := rapid.IntRange(0, 2).Draw(rt, "ndisturb")
+		for i := 0; i < nd; i++ {
+			target := rapid.SampledFrom([]string{p, p, dir}).Draw(rt, "target")
+			if target == "." {
+				target = p
+			}
+			switch rapid.IntRange(0, 6).Draw(rt, "dk") {
+			case 0, 1:
+				hist = append(hist, ops.Op{K: "remove", P: target})
+			case 2:
+				hist = append(hist, ops.Op{K: "removeall", P: target})
+			case 3:
+				hist = append(hist, ops.Op{K: "rename", P: target, P2: other})
+			case 4:
+				hist = append(hist, ops.Op{K: "writefile", P: target, Data: []byte("n"), Perm: 0o644})
+			case 5:
+				hist = append(hist, ops.Op{K: "mkdir", P: target, Perm: 0o755})
+			default:
+				hist = append(hist, ops.Op{K: "mkdirall", P: target + "/" + rapid.SampledFrom(gen.Names).Draw(rt, "child"), Perm: 0o755})
+			}
+		}
+		nu := rapid.IntRange(1, 3).Draw(rt, "nuse")
+		for i := 0; i < nu; i++ {
+			hist = append(hist, ops.Op{K: rapid.SampledFrom([]string{"hwrite", "htrunc", "hchmod", "hclose"}).Draw(rt, "use"), N: 0, Data: []byte("w")})
+		}
+		rec.NonTrivial()
+		for _, op := range hist {
+			rec.Step(op)
+			sig, msg := m.step(op, sit.Of(op, m.tree()))
+			if strings.HasSuffix(sig, ":I5-hang") {
+				rec.HangExit(sig, "%s", msg)
+			}
+			if sig != "" {
+				rec.Failf(rt, sig, "%s", msg)
+			}
+		}
+	})
+}
+
+func TestStaleMem(t *testing.T)     { runStale(t, "mem") }
+func TestStaleKVPlain(t *testing.T) { runStale(t, "kvplain") }
+
 func TestMem(t *testing.T)      { run(t, "mem") }
 func TestKVPlain(t *testing.T)  { run(t, "kvplain") }
 func TestMount(t *testing.T)    { run(t, "mount") }
@@ -467,6 +543,8 @@ func replay(kind string) func(steps []json.RawMessage) (string, string) {
 }
 
 func TestReplayMem(t *testing.T)      { vf.Replay(t, "mem", replay("mem")) }
+func TestReplayStaleMem(t *testing.T) { vf.Replay(t, "stale-mem", replay("mem")) }
+func TestReplayStaleKV(t *testing.T)  { vf.Replay(t, "stale-kvplain", replay("kvplain")) }
 func TestReplayKVPlain(t *testing.T)  { vf.Replay(t, "kvplain", replay("kvplain")) }
 func TestReplayMount(t *testing.T)    { vf.Replay(t, "mount", replay("mount")) }
 func TestReplaySubMem(t *testing.T)   { vf.Replay(t, "submem", replay("submem")) }
